@@ -400,8 +400,8 @@ Proof.
     + intro H; injection H as <- <- <-. split; [apply ok_nil, meq_refl | auto].
 Qed.
 
-Lemma admit_ok : forall k sq sb nxt sq' sb' nxt',
-  admit k sq sb nxt = (sq', sb', nxt') ->
+Lemma sndbuf_admission_ok : forall k sq sb nxt sq' sb' nxt',
+  sndbuf_admission k sq sb nxt = (sq', sb', nxt') ->
   meq (ids sq ++ ids sb) (ids sq' ++ ids sb') /\
   (Forall Qfresh sq -> Forall Packed sb -> Forall Qfresh sq' /\ Forall Packed sb').
 Proof.
@@ -532,8 +532,8 @@ Qed.
 Lemma flush_ok s nmove s' e : SI s -> flush s nmove = (s', e) -> piece_ok s e s'.
 Proof.
   intros [Sq Sb]. unfold flush.
-  destruct (admit (Z.to_nat nmove) (snd_queue s) (snd_buf s) (snd_nxt s)) as [[sq sb] nxt] eqn:E.
-  intro H; injection H as <- <-. destruct (admit_ok _ _ _ _ _ _ _ E) as [M F].
+  destruct (sndbuf_admission (Z.to_nat nmove) (snd_queue s) (snd_buf s) (snd_nxt s)) as [[sq sb] nxt] eqn:E.
+  intro H; injection H as <- <-. destruct (sndbuf_admission_ok _ _ _ _ _ _ _ E) as [M F].
   destruct (F Sq Sb) as [Fq Fp]. split; [| split; simpl; auto].
   unfold holders; simpl.
   eapply evs_ok_meq_l with (H := ids sq ++ ids sb ++ ids (rcv_buf s) ++ ids (rcv_queue s)); [meq_solve|].
@@ -809,3 +809,92 @@ Qed.
 
 Lemma FInv_reach ds s tr : frun finit ds = (s, tr) -> FInv s tr.
 Proof. intro H. change tr with ([] ++ tr). eapply FInv_run; [apply FInv_init | exact H]. Qed.
+
+(* ------------------------------------------------------------------ the statements of C15.v *)
+Lemma thm_single_owner :
+  forall c ops s tr, run (init c) ops = (s, tr) ->
+  forall i, (cnt i (holders s) <= 1)%nat /\
+            (cnt i (holders s) = 1%nat <-> (In (EGet i) tr /\ ~ In (EPut i) tr)).
+Proof. intros c ops s tr H. apply Inv_reach in H. destruct H as [J _]. exact (J_single_owner _ _ _ J). Qed.
+
+Lemma thm_put_once :
+  forall c ops s tr, run (init c) ops = (s, tr) ->
+  forall a b i, tr = a ++ EPut i :: b -> ~ In (EPut i) a /\ ~ In (EPut i) b.
+Proof. intros c ops s tr H. apply Inv_reach in H. destruct H as [J _]. exact (J_put_once _ _ _ J). Qed.
+
+Lemma thm_no_use_after_put :
+  forall c ops s tr, run (init c) ops = (s, tr) ->
+  forall a b i, tr = a ++ EPut i :: b -> forall e, In e b -> ev_id e <> i.
+Proof. intros c ops s tr H. apply Inv_reach in H. destruct H as [J _]. exact (J_no_use_after_put _ _ _ J). Qed.
+
+Lemma thm_use_only_while_owned :
+  forall c ops s tr, run (init c) ops = (s, tr) ->
+  forall a b e, tr = a ++ e :: b ->
+    match e with
+    | EGet i => forall e', In e' a -> ev_id e' <> i
+    | EPut i | ERd i | EWr i => In (EGet i) a /\ ~ In (EPut i) a
+    end.
+Proof. intros c ops s tr H. apply Inv_reach in H. destruct H as [J _]. exact (J_lifecycle _ _ _ J). Qed.
+
+Lemma thm_pool_accepts_full_only :
+  (forall off i, slice_cap off = c_mtuLimit -> pool_put off i = [EPut i]) /\
+  (forall off i, slice_cap off <> c_mtuLimit -> pool_put off i = []) /\
+  (forall off i, off <> 0 -> pool_put off i = []) /\
+  (forall s i off, off <> 0 -> step s (OPutView i off) = (s, 0, [])).
+Proof.
+  split; [| split; [| split]].
+  - intros off i H. unfold pool_put. rewrite H, Z.eqb_refl. reflexivity.
+  - intros off i H. unfold pool_put. destruct (Z.eqb_spec (slice_cap off) c_mtuLimit); [contradiction | reflexivity].
+  - exact pool_put_resliced.
+  - intros s i off H. simpl. destruct (Z.eqb_spec off 0); [contradiction|].
+    rewrite pool_put_resliced by assumption. reflexivity.
+Qed.
+
+Lemma thm_fec_single_owner :
+  forall ds s tr, frun finit ds = (s, tr) ->
+  forall i, (cnt i (fholders s) <= 1)%nat /\
+            (cnt i (fholders s) = 1%nat <-> (In (EGet i) tr /\ ~ In (EPut i) tr)).
+Proof. intros ds s tr H. apply FInv_reach in H. exact (J_single_owner _ _ _ H). Qed.
+
+Lemma thm_fec_put_once :
+  forall ds s tr, frun finit ds = (s, tr) ->
+  forall a b i, tr = a ++ EPut i :: b -> ~ In (EPut i) a /\ ~ In (EPut i) b.
+Proof. intros ds s tr H. apply FInv_reach in H. exact (J_put_once _ _ _ H). Qed.
+
+Lemma thm_fec_no_use_after_put :
+  forall ds s tr, frun finit ds = (s, tr) ->
+  forall a b i, tr = a ++ EPut i :: b -> forall e, In e b -> ev_id e <> i.
+Proof. intros ds s tr H. apply FInv_reach in H. exact (J_no_use_after_put _ _ _ H). Qed.
+
+Definition ex_ops : list op :=
+  [OSend 250; OFlush 3;
+   OInput [mkIseg c_IKCP_CMD_ACK 0 1 0 0] 0;
+   OInput [mkIseg c_IKCP_CMD_PUSH 0 0 3 40] 0;
+   OInput [mkIseg c_IKCP_CMD_PUSH 0 0 3 40; mkIseg c_IKCP_CMD_PUSH 0 9 3 40] 0;
+   OPutView 3 6;
+   ORecv 1000].
+
+Lemma ex_trace :
+  snd (run (init (mkCfg 100 false 4 0 0)) ex_ops) =
+  [EGet 0; EWr 0; EGet 1; EWr 1; EGet 2; EWr 2;
+   ERd 0; ERd 1; ERd 2;
+   EPut 1; ERd 0; ERd 2;
+   EPut 0; EPut 2; EGet 3; EWr 3;
+   ERd 3; EPut 3]
+  /\ holders (fst (run (init (mkCfg 100 false 4 0 0)) ex_ops)) = [].
+Proof. vm_compute. split; reflexivity. Qed.
+
+Lemma ex_stream :
+  snd (run (init (mkCfg 100 true 4 0 0)) [OSend 30; OSend 50; OSend 90]) =
+  [EGet 0; EWr 0; EWr 0; EWr 0; EGet 1; EWr 1].
+Proof. vm_compute. reflexivity. Qed.
+
+Lemma ex_fec :
+  snd (frun finit [FAccept 0 RKeep []; FAccept 0 RKeep []; FAccept 0 (RRecover 2 true) []]) =
+  [EGet 0; EWr 0; EGet 1; EWr 1; EGet 2; EWr 2;
+   ERd 0; ERd 1; ERd 2; EWr 0; EWr 1; EWr 2; EGet 3; EGet 4; ERd 0; ERd 1; ERd 2; EWr 3; EWr 4;
+   EPut 0; EPut 1; EPut 2; ERd 3; EPut 3; ERd 4; EPut 4]
+  /\ snd (frun finit [FAccept 0 RKeep []; FAccept 0 (RRecover 1 false) []; FAccept 7 RKeep [7]]) =
+  [EGet 0; EWr 0; EGet 1; EWr 1; ERd 0; ERd 1; EWr 0; EWr 1; EGet 2; ERd 0; ERd 1; EWr 2;
+   EPut 2; EPut 0; EPut 1; EGet 3; EWr 3; EPut 3].
+Proof. vm_compute. split; reflexivity. Qed.
